@@ -677,9 +677,17 @@ func (m *monitor) step(s stepRec) string {
 			return m.refuse(s, "chunked transfer open")
 		}
 		if cmd.Op == "mail-binary" && !m.cfg.BinaryMIME {
+			if m.uncertain {
+				// the transfer may still be open: refused either way, the
+				// reason (and code) depends on that
+				return m.refuse(s, "BINARYMIME disabled or chunked transfer open")
+			}
 			return m.refuse(s, "BINARYMIME disabled", 504)
 		}
 		if cmd.Op == "mail-size-over" && m.cfg.MaxMessageBytes > 0 {
+			if m.uncertain {
+				return m.refuse(s, "declared SIZE over the limit or chunked transfer open")
+			}
 			return m.refuse(s, "declared SIZE over the limit", 552)
 		}
 		if m.uncertain {
